@@ -1900,6 +1900,15 @@ func (e *CoreExtension) filterNumberFormat(value interface{}, args ...interface{
 		}
 	}
 
+	// A negative number of decimals means none; fmt cannot print more than a
+	// million of them (it would print an error text instead of the number)
+	if decimals < 0 {
+		decimals = 0
+	}
+	if decimals > 1000000 {
+		return nil, fmt.Errorf("number_format: %d decimals is out of range", decimals)
+	}
+
 	// Format the number
 	format := "%." + strconv.Itoa(decimals) + "f"
 	str := fmt.Sprintf(format, num)
